@@ -112,7 +112,7 @@ func genC10(g *Gen) {
 	// redundant chains lifted to the top of the machine-word range: 1, 2, …, 2^k followed by 2^k times a
 	// small redundant chain, with the largest element just below / at / above 2^63 and 2^64 (sums of two
 	// elements wrap in 64-bit arithmetic exactly here)
-	for i := 0; i < g.pick(200, 2000); i++ {
+	for i := 0; i < g.pick(1500, 6000); i++ {
 		small := []int64{1}
 		seenS := map[int64]bool{1: true}
 		n := 5 + g.R.Intn(9)
